@@ -374,8 +374,9 @@ def _compute_newmark_element_hessians(functionSpace, U, UPredicted, internals, d
     f =  vmap(compute_element_stiffness_from_global_fields,
               (None, None, 0, None, 0, 0, 0, 0, None, None))
     fs = functionSpace
-    UAlgorithmic = U - UPredicted
-    return f(UAlgorithmic, fs.mesh.coords, internals, dt, fs.mesh.conns, fs.shapes, fs.shapeGrads, fs.vols,
+    # The inertia term is quadratic in U - UPredicted, so its second derivative does not depend on the
+    # point of evaluation; the strain energy must be linearized about U itself.
+    return f(U, fs.mesh.coords, internals, dt, fs.mesh.conns, fs.shapes, fs.shapeGrads, fs.vols,
              lagrangian_density, modify_element_gradient)
 
 
